@@ -91,6 +91,8 @@ def _do_transfer(  # noqa: C901
         logger.debug("transfer dir: %s with %d files", dir_hash, len(bound_file_ids))
 
         dir_fails = _add(src, dest, bound_file_ids, **kwargs)
+        # files claimed by an earlier directory that failed to upload there
+        dir_fails.update(entry_ids & failed_ids)
         if dir_fails:
             logger.debug(
                 "failed to upload full contents of '%s', aborting .dir file upload",
